@@ -80,6 +80,14 @@ def h_link_laws(pf: bool, pt: bool, selfl: bool, ops: List[Tuple[int, int]]) -> 
   if not c.is_compatible(l.oriented_from, l.oriented_to, l.overlap, True): return False
   if not l.is_compatible_direct(l.oriented_from, l.oriented_to, l.overlap): return False
   if not l.is_compatible_complement(c.oriented_from, c.oriented_to, c.overlap): return False
+  # canonical form: exactly one of the two forms is canonical unless the link is its own complement modulo the
+  # overlap (a hairpin), and canonicize() answers that form from either side without touching the receiver
+  for x in (l, c):
+    k = x.canonicize()
+    if not k.is_canonical(): return False
+    if _fields(k) not in (before, want_c): return False
+    if x.is_canonical() and _fields(k) != _fields(x): return False
+  if (f, fo, t, to) != (t, INV[to], f, INV[fo]) and l.is_canonical() == c.is_canonical(): return False
   return _fields(l) == before and _fields(c) == want_c
 
 def h_link_distinct(pf: bool, pt: bool, selfl: bool, ops: List[Tuple[int, int]], vary: int) -> bool:
